@@ -102,7 +102,9 @@ fn main() {
         std::process::exit(if failed { 2 } else { 0 });
     }
     let mut rep = Report::new(&cmd);
+    rv::report::set_progress_file(args.out.join(format!("shard-{}.progress", args.shard)));
     let known = rv::dispatch(&cmd, &args, &mut rep);
+    rv::report::progress_done();
     if !known {
         eprintln!("unknown property {}", cmd);
         std::process::exit(2);
